@@ -448,3 +448,132 @@ def recipes(draw, spec, max_rows=12, reload_ok=True, scale_ok=True, focus=False)
     if reload_ok and draw(st.integers(0, 4)) == 0:
         rec["reload"] = True
     return rec
+
+
+# ---------------------------------------------------------------------------------------------------------
+# structural variants: the same tree with exactly one structural aspect changed at one node
+
+
+def _same_kind_children(kids):
+    ks = {c["k"] for c in kids}
+    if len(ks) != 1:
+        return False
+    if "Bag" in ks:
+        return len({c["range"] for c in kids}) == 1
+    return True
+
+
+def node_variants(s, parent_kind=None, siblings=1):
+    """[(description, replacement node)] for one spec node."""
+    import copy  # noqa: PLC0415
+
+    out = []
+    k = s["k"]
+
+    def mod(desc, **changes):
+        n = copy.deepcopy(s)
+        n.update(changes)
+        out.append((desc, n))
+
+    free_type = parent_kind not in ("Label", "Index") or siblings == 1
+    if k == "Bin":
+        mod("Bin.num+1", num=s["num"] + 1)
+        mod("Bin.low-1", low=s["low"] - 1.0)
+        mod("Bin.high+1", high=s["high"] + 1.0)
+        for slot in ("underflow", "overflow", "nanflow"):
+            if s[slot]["k"] == "Count":
+                mod(f"Bin.{slot}:Count->Sum", **{slot: {"k": "Sum", "q": {"t": "num", "col": "z", "fl": "lambda"}}})
+    elif k == "SparselyBin":
+        mod("SparselyBin.binWidth*2", binWidth=s["binWidth"] * 2.0)
+        mod("SparselyBin.origin+0.5", origin=s["origin"] + 0.5)
+    elif k == "CentrallyBin":
+        cs = sorted(s["centers"])
+        mod("CentrallyBin.extra-trailing-centre", centers=cs + [cs[-1] + 16.0])
+        mod("CentrallyBin.centre-moved", centers=cs[:-1] + [cs[-1] + 0.25])
+    elif k in ("IrregularlyBin", "Stack"):
+        key = "edges" if k == "IrregularlyBin" else "thresholds"
+        es = list(s[key])
+        mod(f"{k}.extra-trailing-threshold", **{key: es + [(es[-1] if es else 0.0) + 16.0]})
+        if es:
+            mod(f"{k}.threshold-dropped", **{key: es[:-1]})
+            mod(f"{k}.threshold-moved", **{key: es[:-1] + [es[-1] + 0.25]})
+        if free_type:
+            other = "Stack" if k == "IrregularlyBin" else "IrregularlyBin"
+            n = copy.deepcopy(s)
+            n["k"] = other
+            n["thresholds" if other == "Stack" else "edges"] = n.pop(key)
+            out.append((f"{k}->{other}", n))
+    elif k in ("Label", "UntypedLabel"):
+        keys = list(s["pairs"])
+        fresh = next(x for x in ("zz1", "zz2", "zz3") if x not in keys)
+        first = s["pairs"][keys[0]]
+        mod(f"{k}.extra-key", pairs={**copy.deepcopy(s["pairs"]), fresh: copy.deepcopy(first)})
+        mod(f"{k}.key-renamed", pairs={**{kk: copy.deepcopy(v) for kk, v in s["pairs"].items() if kk != keys[-1]}, fresh: copy.deepcopy(s["pairs"][keys[-1]])})
+        if free_type and (k == "Label" or _same_kind_children(list(s["pairs"].values()))):
+            mod(f"{k}->other-label", k="UntypedLabel" if k == "Label" else "Label")
+    elif k in ("Index", "Branch"):
+        mod(f"{k}.size+1", values=copy.deepcopy(s["values"]) + [copy.deepcopy(s["values"][0])])
+        if free_type and (k == "Index" or _same_kind_children(s["values"])):
+            mod(f"{k}->other-collection", k="Branch" if k == "Index" else "Index")
+    elif k in ("Sum", "Average", "Deviate", "Minimize", "Maximize") and free_type:
+        for other in ("Sum", "Average", "Deviate", "Minimize", "Maximize"):
+            if other != k and (other, k) in (("Average", "Deviate"), ("Deviate", "Average"), ("Minimize", "Maximize"), ("Maximize", "Minimize"), ("Sum", "Average"), ("Average", "Sum"), ("Sum", "Minimize"), ("Maximize", "Sum"), ("Deviate", "Sum")):
+                mod(f"{k}->{other}", k=other)
+    elif k == "Count" and free_type:
+        out.append(("Count->Sum", {"k": "Sum", "q": {"t": "num", "col": "z", "fl": "lambda"}}))
+    elif k == "Bag":
+        if s["range"] == "N" and (free_type):
+            out.append(("Bag.range N->N2", {"k": "Bag", "range": "N2", "q": {"t": "pair", "cols": ["x", "y"], "fl": s["q"]["fl"]}}))
+        if free_type:
+            out.append(("Bag->Count", {"k": "Count"}))
+    elif k == "Fraction" and free_type:
+        n = copy.deepcopy(s)
+        out.append(("Fraction->Select", {"k": "Select", "q": n["q"], "cut": n["value"]}))
+    elif k == "Select" and free_type:
+        n = copy.deepcopy(s)
+        out.append(("Select->Fraction", {"k": "Fraction", "q": n["q"], "value": n["cut"]}))
+    return out
+
+
+def all_variants(spec):
+    """[(path, description, variant spec)]: every single-aspect structural variant of the tree."""
+    import copy  # noqa: PLC0415
+
+    from .spec import child_specs  # noqa: PLC0415
+
+    out = []
+
+    def rec(s, path, parent_kind, siblings):
+        for desc, n in node_variants(s, parent_kind, siblings):
+            out.append((path, desc, n))
+        kids = list(child_specs(s))
+        for slot, key, c in kids:
+            nsib = len(kids) if s["k"] in ("Label", "Index") else 1
+            rec(c, path + ((slot,) if key is None else (slot, key)), s["k"], nsib)
+
+    rec(spec, (), None, 1)
+    res = []
+    for path, desc, n in out:
+        root = copy.deepcopy(spec)
+        if not path:
+            root = n
+        else:
+            cur = root
+            for p in path[:-1]:
+                cur = cur[p]
+            cur[path[-1]] = n
+        res.append((path, desc, root))
+    return res
+
+
+@st.composite
+def variant_of(draw, spec):
+    vs = all_variants(spec)
+    if not vs:
+        return None
+    groups = {}
+    for v in vs:
+        groups.setdefault(v[1], []).append(v)
+    g = groups[draw(st.sampled_from(sorted(groups)))]
+    path, desc, v = g[draw(st.integers(0, len(g) - 1))]
+    return {"path": list(path), "desc": desc, "spec": v}
